@@ -419,13 +419,16 @@ fn gen_len(rng: &mut Rng, budget: isize) -> usize {
 
 fn gen_bytes(rng: &mut Rng, budget: &mut isize) -> Vec<u8> {
     let n = gen_len(rng, *budget);
-    let mode = rng.below(5);
+    let mode = rng.below(6);
+    // period of the zero bytes in mode 3/5: non-zero runs that, together with the 1-2 byte length
+    // prefix in front, are just below / at / above a full COBS block (254 non-zero bytes)
+    let period = 251 + rng.usize_below(5);
     let v: Vec<u8> = (0..n)
         .map(|i| match mode {
             0 => 0,                                               // all zero
             1 => 1 + rng.below(255) as u8,                        // no zero: long COBS runs
             2 => if rng.chance(1, 4) { 0 } else { rng.next() as u8 }, // zero-rich
-            3 => if i % 254 == 253 { 0 } else { 0xAA },           // zero right at a COBS block end
+            3 | 5 => if i % (period + 1) == period { 0 } else { 0xAA }, // zero around a COBS block end
             _ => rng.next() as u8,
         })
         .collect();
